@@ -1,7 +1,7 @@
 // libFuzzer target for property C17 (thorough tier, san flavour).  The oracle is inside the target:
 //   bytes -> Form::fromjson
 //     rejected with invalid_argument / runtime_error: fine.  Any other exception, crash or sanitizer report: failure.
-//     accepted: v1 = tojson(verbose), n1 = tojson(terse), pretty printing and type() must not fail;
+//     accepted: v1 = tojson(verbose), n1 = tojson(terse), pretty printing must not fail, type() gives a type or a clean error;
 //       if the form describes an array class of the library (no "Unrecognized..." class, no unnamed primitive - the reader is
 //       lenient about index widths that no class has; the property does not speak about those):
 //         g = fromjson(v1), h = fromjson(n1) must be accepted;  tojson(g, verbose) == tojson(h, verbose) == v1 (fixed point);
@@ -12,6 +12,7 @@
 #include <cstdio>
 #include <cstdlib>
 #include <cstring>
+#include <unistd.h>
 #include <map>
 #include <stdexcept>
 #include <string>
@@ -38,36 +39,58 @@ static void fail(const char* what, const std::string& a, const std::string& b) {
   std::abort();
 }
 
+// the type string of a form, or "<no type>" when Form::type refuses cleanly (a VirtualForm without an inner form, a NumpyForm
+// without a primitive): a documented error, which must then be the same before and after the round trip
 static std::string typestring(const ak::FormPtr& f) {
   ak::util::TypeStrs typestrs;
   typestrs["Point"] = "PointT";
-  return f->type(typestrs)->tostring();
+  try {
+    return f->type(typestrs)->tostring();
+  }
+  catch (std::invalid_argument&) { return "<no type>"; }
+  catch (std::runtime_error&) { return "<no type>"; }
 }
 
-// known finding numpyform_format_lost (known_findings.jsonl): a NumpyForm whose format is not the canonical spelling of its
-// primitive on this platform is re-read with the canonical one.  Such forms are printed but not round-tripped here.
-static bool noncanonical_format(const ak::FormPtr& f) {
+// Forms that are printed but not round-tripped here:
+//  * known finding numpyform_format_lost (known_findings.jsonl): a NumpyForm whose format is not the canonical spelling of its
+//    primitive on this platform is re-read with the canonical one;
+//  * forms that describe no array of the library although the lenient reader builds them (an itemsize that is not the
+//    primitive's, a ListArray with starts and stops of different widths, masks/tags of another width than every class has; index widths without a class are recognised by the
+//    "Unrecognized..." class name in the caller).
+static bool outside_scope(const ak::FormPtr& f) {
   if (f.get() == nullptr) return false;
-  if (ak::NumpyForm* r = dynamic_cast<ak::NumpyForm*>(f.get())) return r->format() != ak::util::dtype_to_format(r->dtype());
-  if (ak::RegularForm* r = dynamic_cast<ak::RegularForm*>(f.get())) return noncanonical_format(r->content());
-  if (ak::ListForm* r = dynamic_cast<ak::ListForm*>(f.get())) return noncanonical_format(r->content());
-  if (ak::ListOffsetForm* r = dynamic_cast<ak::ListOffsetForm*>(f.get())) return noncanonical_format(r->content());
-  if (ak::IndexedForm* r = dynamic_cast<ak::IndexedForm*>(f.get())) return noncanonical_format(r->content());
-  if (ak::IndexedOptionForm* r = dynamic_cast<ak::IndexedOptionForm*>(f.get())) return noncanonical_format(r->content());
-  if (ak::ByteMaskedForm* r = dynamic_cast<ak::ByteMaskedForm*>(f.get())) return noncanonical_format(r->content());
-  if (ak::BitMaskedForm* r = dynamic_cast<ak::BitMaskedForm*>(f.get())) return noncanonical_format(r->content());
-  if (ak::UnmaskedForm* r = dynamic_cast<ak::UnmaskedForm*>(f.get())) return noncanonical_format(r->content());
-  if (ak::VirtualForm* r = dynamic_cast<ak::VirtualForm*>(f.get())) return noncanonical_format(r->form());
+  if (ak::NumpyForm* r = dynamic_cast<ak::NumpyForm*>(f.get())) {
+    return r->format() != ak::util::dtype_to_format(r->dtype())  ||       // the known finding
+           r->itemsize() != ak::util::dtype_to_itemsize(r->dtype());      // no array has an itemsize other than its primitive's
+  }
+  if (ak::RegularForm* r = dynamic_cast<ak::RegularForm*>(f.get())) return outside_scope(r->content());
+  if (ak::ListForm* r = dynamic_cast<ak::ListForm*>(f.get())) {
+    return r->starts() != r->stops()  ||  outside_scope(r->content());    // no ListArray class has starts and stops of different widths
+  }
+  if (ak::ListOffsetForm* r = dynamic_cast<ak::ListOffsetForm*>(f.get())) return outside_scope(r->content());
+  if (ak::IndexedForm* r = dynamic_cast<ak::IndexedForm*>(f.get())) return outside_scope(r->content());
+  if (ak::IndexedOptionForm* r = dynamic_cast<ak::IndexedOptionForm*>(f.get())) return outside_scope(r->content());
+  if (ak::ByteMaskedForm* r = dynamic_cast<ak::ByteMaskedForm*>(f.get())) return r->mask() != ak::Index::Form::i8  ||  outside_scope(r->content());
+  if (ak::BitMaskedForm* r = dynamic_cast<ak::BitMaskedForm*>(f.get())) return r->mask() != ak::Index::Form::u8  ||  outside_scope(r->content());
+  if (ak::UnmaskedForm* r = dynamic_cast<ak::UnmaskedForm*>(f.get())) return outside_scope(r->content());
+  if (ak::VirtualForm* r = dynamic_cast<ak::VirtualForm*>(f.get())) return outside_scope(r->form());
   if (ak::RecordForm* r = dynamic_cast<ak::RecordForm*>(f.get())) {
-    for (auto c : r->contents()) if (noncanonical_format(c)) return true;
+    for (auto c : r->contents()) if (outside_scope(c)) return true;
     return false;
   }
   if (ak::UnionForm* r = dynamic_cast<ak::UnionForm*>(f.get())) {
-    for (auto c : r->contents()) if (noncanonical_format(c)) return true;
+    if (r->tags() != ak::Index::Form::i8) return true;                   // every UnionArray class has 8-bit tags
+    for (auto c : r->contents()) if (outside_scope(c)) return true;
     return false;
   }
   return false;
 }
+
+// Content.cpp is linked twice (instrumented in this executable, plain in libawkward.so), so its global `awkward::none` would be
+// destroyed twice by the exit handlers.  A normal exit (all runs done, nothing found) therefore leaves through _exit; this
+// handler is registered after the globals' destructors and so runs before them.  Failures never come here (abort / _Exit).
+static void leave() { std::fflush(nullptr); _exit(0); }
+extern "C" int LLVMFuzzerInitialize(int*, char***) { std::atexit(leave); return 0; }
 
 extern "C" int LLVMFuzzerTestOneInput(const uint8_t* data, size_t size) {
   std::string text(reinterpret_cast<const char*>(data), size);
@@ -95,7 +118,7 @@ extern "C" int LLVMFuzzerTestOneInput(const uint8_t* data, size_t size) {
       v1.find("\"primitive\":\"unknown\"") != std::string::npos) {
     return 0;                                   // no array class has this form
   }
-  if (noncanonical_format(f)) return 0;
+  if (outside_scope(f)) return 0;
 
   ak::FormPtr g, h;
   try {
